@@ -170,7 +170,14 @@ def _overdue_case():
             d = draw(st.integers(2, 400 * YEAR_US)) * (1 if kind == "after" else -1)
         now = exp + d
         target = draw(st.sampled_from(["Parameters", "ArgsBucket", "ResultBucket", "Job"]))
-        return {"ttl_us": ttl, "ts_us": ts, "tz_s": tz, "now_us": now, "kind": kind, "target": target}
+        # the other scheduling fields of the message / job (a later delay_until, a period, a pending retry time) do not enter the
+        # decision: expiry counts from the timestamp
+        sched = draw(st.one_of(st.none(), st.none(), st.fixed_dictionaries({
+            "until_off_us": st.one_of(st.none(), st.integers(-3600 * US, 400 * 86400 * US)),
+            "by_us": st.one_of(st.none(), st.integers(1 * US, 30 * 86400 * US)),
+            "net_off_us": st.one_of(st.none(), st.integers(-3600 * US, 30 * 86400 * US)),
+            "tried": st.integers(0, 3)})))
+        return {"ttl_us": ttl, "ts_us": ts, "tz_s": tz, "now_us": now, "kind": kind, "target": target, "sched": sched}
 
     return build()
 
@@ -208,14 +215,27 @@ def run_overdue(case: dict) -> Outcome:
     expected = False if ttl is None else now_us > ts_us + ttl_us
     with vclock.Pinned(now_us):
         try:
-            if target == "Parameters":
+            sched = case.get("sched")
+            off = lambda us: None if us is None else ts + timedelta(microseconds=us)  # noqa: E731
+            if target == "Parameters" and sched:
+                from repid.data._parameters import DelayProperties, RetriesProperties
+
+                got = Parameters(timestamp=ts, ttl=ttl, retries=RetriesProperties(max_amount=3, already_tried=sched["tried"]),
+                                 delay=DelayProperties(delay_until=off(sched["until_off_us"]),
+                                                       defer_by=None if sched["by_us"] is None else timedelta(microseconds=sched["by_us"]),
+                                                       next_execution_time=off(sched["net_off_us"]))).is_overdue
+            elif target == "Parameters":
                 got = Parameters(timestamp=ts, ttl=ttl).is_overdue
             elif target == "ArgsBucket":
                 got = ArgsBucket(data="x", timestamp=ts, ttl=ttl).is_overdue
             elif target == "ResultBucket":
                 got = ResultBucket(data="x", started_when=1, finished_when=2, timestamp=ts, ttl=ttl).is_overdue
             else:
-                j = Job("some_job", ttl=ttl, _connection=_connection())
+                jkw = {}
+                if sched:
+                    jkw = {"deferred_until": off(sched["until_off_us"]),
+                           "deferred_by": None if sched["by_us"] is None else timedelta(microseconds=sched["by_us"])}
+                j = Job("some_job", ttl=ttl, _connection=_connection(), **jkw)
                 j.timestamp = ts
                 got = j.is_overdue
         except Exception as e:  # noqa: BLE001
